@@ -28,6 +28,7 @@ allocator under the simulated kernel.
 -/
 import A10Verif.Lemmas.OpInv
 import A10Verif.Lemmas.LifeRefine
+import A10Verif.Props.C02
 
 namespace A10.OpSys
 open A10
@@ -187,5 +188,53 @@ theorem C01_system_no_deref_after_free {s : Sys} (hr : Reachable s) (c : Cqe)
     i < s.ops.length ∧ ∃ o, s.ops[i]? = some o ∧ o.boxLive = true ∧
       (OpSys.isRunning o.status = true ∨ o.status = Status.dropped) :=
   life_no_deref_after_free hr c hc i hu hs
+
+/-- Started and not dropped: `Running` or `Done`. -/
+def held (st : Status) : Bool := OpSys.isRunning st || OpSys.isDone st
+
+theorem foldl_upd1_held (l : List Cqe) : ∀ (o : Op), held o.status = true →
+    held (l.foldl upd1 o).status = true ∧ (l.foldl upd1 o).boxLive = o.boxLive ∧
+    (l.foldl upd1 o).resInit = o.resInit ∧ (l.foldl upd1 o).frees = o.frees ∧
+    (l.foldl upd1 o).resDrops = o.resDrops ∧ (l.foldl upd1 o).futLive = o.futLive := by
+  induction l with
+  | nil => intro o h; simp [h]
+  | cons c l ih =>
+    intro o h
+    have hu : held (upd1 o c).status = true ∧ (upd1 o c).boxLive = o.boxLive ∧
+        (upd1 o c).resInit = o.resInit ∧ (upd1 o c).frees = o.frees ∧
+        (upd1 o c).resDrops = o.resDrops ∧ (upd1 o c).futLive = o.futLive := by
+      cases o with
+      | mk multi status waker boxLive resInit futLive frees resDrops =>
+      cases status <;> simp [held, OpSys.isRunning, OpSys.isDone] at h <;>
+        cases hm : fMore c.flags <;> cases multi <;> cases waker <;>
+        simp [upd1, Op.update, hm, held, OpSys.isRunning, OpSys.isDone]
+    obtain ⟨h1, h2, h3, h4, h5, h6⟩ := hu
+    obtain ⟨i1, i2, i3, i4, i5, i6⟩ := ih (upd1 o c) h1
+    simp only [List.foldl_cons]
+    exact ⟨i1, i2.trans h2, i3.trans h3, i4.trans h4, i5.trans h5, i6.trans h6⟩
+
+/-- **No batch of completions releases memory the caller's future still owns.** For an operation
+that was started and whose future has not been dropped (`Running` or `Done`), after the completion
+loop has processed ANY list of completions — any number, for any operations, in any order, even
+completions the kernel's contract would not allow (a second final one, one after `Done`) — its
+state allocation and its resources (buffers, paths, addresses) are exactly as allocated as
+before, nothing was released, and it is still `Running` or `Done`: only the future's own
+poll/drop ever ends the borrow. -/
+theorem C01_batch_keeps_held_memory (cs : List Cqe) (s : Sys) (a : Acc) (i : Nat) (o : Op)
+    (ho : s.ops[i]? = some o) (hh : held o.status = true) :
+    ∃ o', (processAll s a cs).1.ops[i]? = some o' ∧ held o'.status = true ∧
+      o'.boxLive = o.boxLive ∧ o'.resInit = o.resInit ∧ o'.frees = o.frees ∧
+      o'.resDrops = o.resDrops ∧ o'.futLive = o.futLive := by
+  refine ⟨(cs.filter (addressed i)).foldl upd1 o, ?_, foldl_upd1_held _ o hh⟩
+  rw [C02_own_completions_only, ho]; rfl
+
+/-- Non-vacuity: a running zero-copy style operation receiving its result, a notification and a
+(contract-breaking) third final completion keeps its allocation. -/
+example :
+    let s : Sys := { ops := [{ multi := false, status := .running (.single ⟨0, 0⟩) }] }
+    let cs : List Cqe := [⟨.op 0, 7, 2⟩, ⟨.op 0, 0, 8⟩, ⟨.op 0, 1, 0⟩]
+    s.ops.map (fun o => held o.status) = [true] ∧
+    ((processAll s {} cs).1.ops.map (fun o => (o.boxLive, o.resInit, o.frees))) = [(true, true, 0)] := by
+  decide
 
 end A10.Life
